@@ -55,6 +55,12 @@ func c05Scenarios() []scenario {
 		add(c05p{kind: "chanev", k: k, posters: 1, posts: 2})
 		add(c05p{kind: "chanev-fini", k: k, posters: 1, posts: 1})
 	}
+	// nobody polls while several goroutines post into the last free slot(s): PostEvent never
+	// waits - each call returns at once, nil exactly for those that got a slot
+	for _, pre := range []int{8, 9, 10} {
+		add(c05p{kind: "idleposts", k: 0, posters: 2, posts: 1, prefill: pre})
+		add(c05p{kind: "idleposts", k: 0, posters: 3, posts: 1, prefill: pre})
+	}
 	// the application's channel is full and nobody receives: quit / Fini must still end the
 	// forwarding (an event is in flight inside ChannelEvents) and close the channel
 	for _, k := range []int{2, 3} {
@@ -300,6 +306,31 @@ func c05prog(ps string, res *result) func() {
 			}
 		}
 		finished := false
+		gatePolling := p.kind != "idleposts"
+		if p.kind == "idleposts" {
+			returned := 0
+			for pi := range o.posts {
+				_ = pi
+			}
+			// (the posters were spawned above and count themselves in o.posts)
+			spawn("gate", func() {
+				verifrt.Quiesce()
+				for _, recs := range o.posts {
+					returned += len(recs)
+				}
+				if returned != p.posters*p.posts {
+					res.fail("PostEvent is waiting: %d of %d PostEvent calls have not returned although nobody is polling (it must report ErrEventQFull instead of waiting for room)", p.posters*p.posts-returned, p.posters*p.posts)
+				}
+				// now the application polls
+				gatePolling = true
+				for {
+					if !record(s.PollEvent()) {
+						finished = true
+						return
+					}
+				}
+			})
+		}
 		switch p.kind {
 		case "chanev-stalled", "chanev-stalled-fini":
 			ch := make(chan tcell.Event, 1)
@@ -368,6 +399,7 @@ func c05prog(ps string, res *result) func() {
 					}
 				}
 			})
+		case "idleposts":
 		default:
 			spawn("consumer", func() {
 				for {
@@ -381,7 +413,7 @@ func c05prog(ps string, res *result) func() {
 		if !strings.HasPrefix(p.kind, "chanev") {
 			// when every producer is done and the pipeline has drained, end the consumer
 			spawn("closer", func() {
-				verifrt.Block("producers-done", func() bool { return producersLeft == 0 })
+				verifrt.Block("producers-done", func() bool { return producersLeft == 0 && gatePolling })
 				verifrt.Quiesce()
 				if err := s.PostEvent(tcell.NewEventInterrupt(9999)); err != nil {
 					res.fail("the event queue is still full although the consumer is waiting: %v", err)
@@ -407,6 +439,9 @@ func c05check(ps string, o verifrt.Outcome, res *result) string {
 	if len(res.fails) > 0 {
 		if strings.HasPrefix(res.fails[0], "ChannelEvents has not returned") {
 			return "channel-not-closed: " + strings.Join(res.fails, "; ") + tag
+		}
+		if strings.HasPrefix(res.fails[0], "PostEvent is waiting") {
+			return "postevent-waits: " + strings.Join(res.fails, "; ") + tag
 		}
 		if strings.HasPrefix(res.fails[0], "When()") {
 			return "when-panic: " + strings.Join(res.fails, "; ") + tag
